@@ -228,3 +228,51 @@ func vpC10_O4() {
 	vpAssert("accepted prepend starts at the older events", upd.Events[0].Index == uint64(j0))
 	vpAssert("prepend of corrupted older events is refused", !bad)
 }
+
+func init() {
+	vpHarnesses["vpC10_O5"] = vpC10_O5
+}
+
+// C10-O5: an event list that arrived over the wire (EventList decoded by
+// uncompress: indices and parent hashes recomputed, the list marked internally
+// consistent) and lists flattened from such parts, verified with EventList.Verify
+// against an accumulator: accepted exactly when the list ends in the event whose
+// hash that accumulator carries and has no gap. A list ending elsewhere, a list of
+// forged values and a flattened list with a missing part are refused.
+func vpC10_O5() {
+	n := vpParam("nevents", 3)
+	h := vpBuildHistory(n)
+	j0, j1 := vpChoose("j0", n+1), vpChoose("j1", n+1)
+	vpAssume(j0 <= j1)
+	against := vpChoose("against", n+1)
+	mk := func(a, b int, forge bool) *EventList {
+		evs := make([]*Event, 0, b-a+1)
+		for j := a; j <= b; j++ {
+			evs = append(evs, vpCopyEvent(h.events[j]))
+		}
+		if forge {
+			e2 := vpSmallPrime("e_forged")
+			vpAssume(e2.Cmp(evs[len(evs)-1].E) != 0)
+			evs[len(evs)-1].E = e2
+		}
+		el := &EventList{ComputeProduct: true}
+		el.uncompress(NewEventList(evs...).compress())
+		return el
+	}
+	switch vpChoose("shape", 3) {
+	case 0: // one transported list j0..j1
+		err := mk(j0, j1, false).Verify(h.accs[against])
+		vpAssert("a transported event list verifies exactly against the accumulator it ends in", (err == nil) == (against == j1))
+	case 1: // its last value replaced by another prime
+		vpAssume(j1 > 0)
+		err := mk(j0, j1, true).Verify(h.accs[against])
+		vpAssert("a transported list with a forged value is refused", err != nil)
+	case 2: // flattened from two parts j0..k and k2..j1
+		k, k2 := vpChoose("k", n+1), vpChoose("k2", n+1)
+		vpAssume(j0 <= k && k < k2 && k2 <= j1)
+		fl, err := FlattenEventLists([]*EventList{mk(k2, j1, false), mk(j0, k, false)})
+		vpAssume(err == nil)
+		err = fl.Verify(h.accs[against])
+		vpAssert("a flattened list verifies exactly when it has no gap and ends in the accumulator's event", (err == nil) == (against == j1 && k2 == k+1))
+	}
+}
